@@ -10,22 +10,70 @@ def commits():
         return []
     return [l.split()[0] for l in out.splitlines() if l.split(' ', 1)[1].startswith('verif:')]
 
+def _c(level, technique, text, note, ref):
+    return (level, technique, text, note, ref)
+
 CHECKS = {
- 'C08': ('exploration', 'reference-model monitor (typed AST evaluator + tick() evaluation trace) over generated expressions in 14 syntactic positions; operator pairs/triples enumerated',
-         'Every generated expression tree is printed with minimal, full and random-superset parentheses, rendered once per printing on a fresh engine, and compared byte-for-byte (and tick trace for tick trace) with a reference evaluator that interprets the generator AST and never sees source text. Held on the enumerated operator pairs, the (sampled in quick, complete in thorough) operator triples and the random trees of the run; says nothing about trees not generated.',
-         'trusted: harness/internal/mt (reference interpreter, printer); value domains restricted to what the statement defines (DESIGN 4/C08)', '4/C08'),
- 'C09': ('exploration', 'reference-model monitor over generated if/for/set programs; exhaustive truthiness, list-length, string and range grids',
-         'Programs are interpreted by the reference interpreter and rendered once on a fresh engine; outputs must be identical. Grids: 20 truthiness probes x 6 structures, literal conditions, list lengths 0-40, multi-byte strings, range(start,end,step) over [-6,6]^2 x 5 steps, set visibility; plus random nested programs.',
-         'trusted: harness/internal/mt; no map loops, no float conditions, ranges only with a step towards end', '4/C09'),
- 'C10': ('exploration', 'reference-model monitor (block substitution along the extends chain); assignments of block definitions enumerated for chains <= 3 (<= 4 thorough) + random chains up to 6',
-         'For each chain the reference computes the substitution semantics (most derived definition, parent() = next definition down, empty override = nothing, text outside blocks dropped) and the engine must produce the same bytes; four base layouts (plain, nested blocks, block in loop, block in condition) and three parent-name forms.',
-         'trusted: harness/internal/mt; children define blocks at top level only', '4/C10'),
- 'C11': ('exploration', 'reference-model monitor with scope frames + probes after every include; option/placement grid run exhaustively',
-         'All 16 option combinations x 3 name forms x 4 placements x 3 targets x 3 variable-overlap patterns (1728 points) are run; after each include the includer prints every variable, calls its own macro and renders its own block, so a leak in either direction changes bytes. 60 further cases check that ignore missing only swallows not-found.',
-         'trusted: harness/internal/mt; allow-all sandbox policy', '4/C11'),
- 'C12': ('exploration', 'reference-model monitor + cross-form agreement over the exhaustive (signature, defaults, argument count, body, call form, call site) grid for <= 3 parameters',
-         '7900 grid points + random; each is checked against the reference binding rules and a sample is re-rendered through the direct form to compare the macro bytes across call forms.',
-         'trusted: harness/internal/mt; macro bodies read only parameters', '4/C12'),
+ 'C01': _c('exploration', 'pristine-process oracle over operation histories + node-tree fingerprint invariant + pool-alias scan after every operation',
+   'Histories of 8-60 engine operations (renders, RenderTo incl. failing writers, failing renders, parses, re-registrations, new versions, cache/debug toggles, GCs, activity on other engines) run on 1-3 engines in one process; every render is compared with `vrun oneshot` (new process, new engine, same templates and configuration, one render). After each operation every cached template and parsed handle must have an unchanged fingerprint and no node reachable from them may sit in an object pool. Held on the histories of the run; interleavings of GC with pool state are sampled, not enumerated.',
+   'trusted: hook VerifFingerprint / VerifPoolAliases (build tag verif), harness template-set generator; error texts are not compared', '4/C01'),
+ 'C02': _c('exploration', 'Go race detector (reports parsed and deduplicated by function pair) + fatal-exit watch + serial-equality of every call + harness-computed relative-name markers + porcupine linearizability of RegisterString/Render; yield injection at hook points',
+   'Client scripts of 40-300 calls on one shared engine (2-32 goroutines, GOMAXPROCS 2-16, cache on/off/auto-reload, array / chain / file-system loaders, first-load storms released by a barrier); even schedules run in the -race build. Each independent call must equal the same call done alone on a fresh engine; relative includes/extends/imports must carry the sibling marker and never the other directory\'s; register/render histories are checked with porcupine against a per-name register. Held on the interleavings that occurred; a schedule tuple is reproducible, the interleaving is not.',
+   'trusted: Go race detector, porcupine v1.3.0; monitor keeps no shared state in the measured region', '4/C02'),
+ 'C03': _c('exploration', 'metamorphic repeat-equality: 12 in-process renders with permuted map insertion order and fresh allocations + 4 renders in a second process',
+   'All 16 outputs of a case must be byte-identical. Cases combine map loops, hash literals, first/keys/merge/join/json_encode on untyped, typed and nested maps, every PHP date letter in random format strings, and pointer printing. With >= 4 entries an order-dependent output survives 12 repetitions with probability <= 4^-11.',
+   'errors count as outputs; TZ equal in both processes', '4/C03'),
+ 'C04': _c('exploration', 'by-construction expected bytes for alternating literal segments and tags; spies + non-interference for comment and verbatim bodies; exhaustive single-byte (and byte-pair, thorough) grids',
+   'Every byte value before and after each tag kind is enumerated; random templates use arbitrary bytes (invalid UTF-8, NUL, lone delimiters, CR/LF) incl. sources above 4096 bytes; comment/verbatim bodies hold spies and context variables and are rendered under three contexts.',
+   'segments never contain tag openers nor end in { or backslash before a tag', '4/C04'),
+ 'C05': _c('exploration', 'crash/hang sanitizer: recover + process-exit watch + per-case watchdog + canary render in isolated child processes',
+   'Value-shape x construct grid (75 Go value shapes x ~740 constructs incl. every built-in filter with 20 argument sets) enumerated; exhaustive truncation and single-byte deletion of a 40-template corpus; pathological shapes; token/byte mutations and splices of generated programs; malformed compiled blobs. After every case a canary template must still render correctly on the same engine.',
+   'statement exclusions applied syntactically (self-recursive macros skipped and counted); 20 s watchdog confirmed alone with 60 s', '4/C05'),
+ 'C06': _c('exploration', 'spy monitor + errors.As(*SecurityViolation) over the exhaustive position x route x kind x policy grid',
+   '22 syntactic positions x 10 routes below the sandbox boundary x {filter, function} x 4 policies x 2 variants (3280 applicable points) run exhaustively: no forbidden spy call, a *SecurityViolation is returned, the allowed twin renders like the unsandboxed template, the includer keeps its permissions.',
+   'macro calls are policed as functions (observed), macro names are allowed', '4/C06'),
+ 'C07': _c('exploration', 'independent HTML scanner/decoder over e/escape in 7 positions x 2 configurations; all BMP code points enumerated',
+   'Every code point U+0000-U+FFFF alone and embedded, all pairs over specials and reference-forming characters, invalid UTF-8, 1 MiB inputs, non-string values; with the hook VerifUnregisterFilter the built-in fallback escaper runs the same grid.',
+   'reference spelling not prescribed; text(v) of non-strings is what {{ v }} prints', '4/C07'),
+ 'C08': _c('exploration', 'reference-model monitor (typed AST evaluator + tick() evaluation trace) over generated expressions in 14 syntactic positions; operator pairs/triples enumerated',
+   'Every generated expression tree is printed with minimal, full and random-superset parentheses, rendered once per printing on a fresh engine, and compared byte-for-byte (and tick trace for tick trace) with a reference evaluator that interprets the generator AST and never sees source text. Operator pairs are enumerated, triples sampled in quick and complete in thorough.',
+   'trusted: harness/internal/mt (reference interpreter, printer); value domains restricted to what the statement defines', '4/C08'),
+ 'C09': _c('exploration', 'reference-model monitor over generated if/for/set programs; exhaustive truthiness, list-length, string and range grids',
+   'Grids: 20 truthiness probes x 6 structures, literal conditions, list lengths 0-40, multi-byte strings, range(start,end,step) over [-6,6]^2 x 5 steps, set visibility; plus random nested programs.',
+   'trusted: harness/internal/mt; no map loops, no float conditions, ranges only with a step towards end', '4/C09'),
+ 'C10': _c('exploration', 'reference-model monitor (block substitution along the extends chain); definitions enumerated for chains <= 3 (<= 4 thorough) + random chains up to 6',
+   'Four base layouts (plain, nested blocks, block in loop, block in condition), three parent-name forms; per (level, block) absent / empty / text / text+parent() / parent() twice / variable / loop.',
+   'trusted: harness/internal/mt; children define blocks at top level only', '4/C10'),
+ 'C11': _c('exploration', 'reference-model monitor with scope frames + probes after every include; option/placement grid run exhaustively',
+   '16 option sets x 3 name forms x 4 placements x 3 targets x 3 overlap patterns (1728 points) + 60 cases showing that ignore missing only swallows not-found.',
+   'trusted: harness/internal/mt; allow-all sandbox policy', '4/C11'),
+ 'C12': _c('exploration', 'reference-model monitor + cross-form agreement over the exhaustive (signature, defaults, argument count, body, call form, call site) grid for <= 3 parameters',
+   '7900 grid points + random; a sample is re-rendered through the direct form to compare the macro bytes across call forms.',
+   'trusted: harness/internal/mt; macro bodies read only parameters', '4/C12'),
+ 'C13': _c('exploration', 'metamorphic monitor: dashed template vs generator-trimmed template; all dash subsets for <= 10 delimiters, random subsets above',
+   'Per-tag-kind corpus (21 entries) with every subset of dashed delimiters and random whitespace paddings, generated programs with random subsets, sources above 4096 bytes for the second tokenizer.',
+   'text between tags is empty or has a non-blank core; comments are not dashed', '4/C13'),
+ 'C14': _c('exploration', 'metamorphic monitor: marker pads vs long literal/comment pads at the same insertion points',
+   'Target lengths 4095/4096/4097, 8K, 20K+-1, 64K+-1 (100K+-1, 300K in thorough), pads that put a chosen tag exactly at offset 4095-4097, many small pads crossing token-count classes; with and without dashes.',
+   'filler invariant under surrounding filters; never inside tags or verbatim bodies', '4/C14'),
+ 'C15': _c('exploration', 'online trace checker against an explicit cache/loader state machine; unique version markers; counting loaders; fingerprints around misses',
+   'Histories of 10-80 steps over 3 names x 1-3 loaders (in-memory timestamp-aware / plain, FileSystemLoader, CompiledLoader with os.Chtimes) mixing configuration changes, three kinds of registration, loader edits and Load/Render/RenderTo; allowed outcome sets have two members exactly where the statement is silent.',
+   'logical mtimes; registrations only with the cache on', '4/C15'),
+ 'C16': _c('exploration', 'round-trip equality on CompiledTemplate fields + metamorphic render equality source vs compiled (also through CompiledLoader files)',
+   'Arbitrary name/source bytes incl. NUL and invalid UTF-8, sizes around 2^8 / 2^16 up to 1 MiB (16 MiB thorough), extreme timestamps; generated programs compiled, serialised, loaded into a second engine and rendered under three contexts.',
+   'AST blob differences recorded, not judged; >= 4 GiB sources out of reach', '4/C16'),
+ 'C17': _c('fault_enumeration', 'record-then-inject: every callback invocation observed in a counting pass is failed once with a unique sentinel',
+   'For each generated program pass 0 records the N invocations (filters, functions, tests, loader reads) that happen; passes 1..N fail invocation k and require err != nil, errors.Is/As to the sentinel and empty Render output. Render and RenderTo, debug off/on; plus unresolvable names in every wrapper position and the documented tolerances as converse. Exhaustive over the recorded invocations of every generated program.',
+   'only invocations that really happen are injected; error text not inspected', '4/C17'),
+ 'C18': _c('exploration', 'deep snapshot diff (incl. spare slice capacity and unexported fields) + second-render equality + race detector as write detector on shared data',
+   'Template bank (every built-in filter/function, two-filter chains, set of context names, loops with set, include/macro scopes, literals embedding caller containers) x contexts of typed/untyped slices with sentinel-filled spare capacity, arrays, maps, structs, pointers.',
+   'races on engine state are C02\'s and ignored here', '4/C18'),
+ 'C19': _c('exploration', 'law monitors over one or two engine executions + reference slice index rules (exhaustive grid) + math/big.Rat for abs/round/number_format',
+   'Exhaustive slice grid (sizes 0-7 x start, length in [-9,9] + omitted x 4 carriers = 12160 points); idempotence, reverse, sort, length/first/last vs loop, join/split, default, merge/keys and number laws on random inputs.',
+   'one recorded known finding: multi-character split (pinned by the repository\'s own test suite)', '4/C19'),
+ 'C20': _c('exploration', 'reference by direct reflection over lookup histories with cache floods; attribute cache size through a hook; some histories from 8 goroutines under -race',
+   'Family of 30 values (promoted fields one and two levels deep, embedded nil pointers, shadowing, unexported fields, value/pointer methods, typed/named/int-keyed maps) re-checked after each of 2-4 floods of 1200-2500 fresh StructOf (type, name) pairs with skewed access frequencies.',
+   'pointer-receiver methods on values not asserted; members hold strings and ints', '4/C20'),
 }
 
 NOT_YET = {}
